@@ -76,11 +76,25 @@ Definition run_ufun (u : ufun) (ss : list text) : option eres :=
   end.
 
 (* FunctionMap::default (features glob/ip off) *)
+(* a pattern outside the modelled regex class evaluates to an error in the
+   model (the real function would consult the regex crate): generated policies
+   stay inside the class, a disagreement shows up in the correspondence *)
+Definition ob_res (o : option bool) : eres := match o with Some b => EV (VBool b) | None => EErr end.
+Definition ot_res (o : option text) : eres := match o with Some t => EV (VStr t) | None => EErr end.
 Definition builtin (f : text) (ss : list text) : option eres :=
   match ss with
   | [a; b] =>
     if teqb f (T "keyMatch") then Some (EV (VBool (key_match a b)))
     else if teqb f (T "keyGet") then Some (EV (VStr (key_get a b)))
+    else if teqb f (T "keyMatch2") then Some (ob_res (key_match2 a b))
+    else if teqb f (T "keyMatch3") then Some (ob_res (key_match3 a b))
+    else if teqb f (T "keyMatch4") then Some (ob_res (key_match4 a b))
+    else if teqb f (T "keyMatch5") then Some (ob_res (key_match5 a b))
+    else if teqb f (T "regexMatch") then Some (ob_res (regex_match_words a b))
+    else None
+  | [a; b; c] =>
+    if teqb f (T "keyGet2") then Some (ot_res (key_get2 a b c))
+    else if teqb f (T "keyGet3") then Some (ot_res (key_get3 a b c))
     else None
   | _ => None
   end.
